@@ -1,17 +1,17 @@
 SPECIFICATION Spec
 CONSTANTS
-  EffTokens = {"pa", "st", "im"}
+  EffTokens = {"pa"}
   MaxEff = 1
-  Modes = {"normal", "exc", "sysexit", "baseKbd", "recursion", "syntax"}
+  Modes = {"normal", "exc", "sysexit", "baseKbd", "syntax", "internalFault"}
   FnModes = {"normal", "exc", "baseCustom"}
   MaxFns = 1
-  Depth = 3
+  Depth = 2
   InputOps = {}
   Entries = {"run", "call", "evaluate"}
-  TracerStyles = {"none", "native", "calls"}
+  TracerStyles = {"none"}
   Threadeds = {FALSE, TRUE}
   Givens = {}
-  Blockeds = {"none"}
+  Blockeds = {"none", "time", "math"}
   Flags = {}
 INVARIANT Restored
 INVARIANT Contained
